@@ -132,7 +132,7 @@ theorem finish_err2 (cfg : Cfg) (pre : List Op) (js : JS) (a : Option Bytes) (v 
 theorem finish_ok (cfg : Cfg) (pre : List Op) (js : JS) (a : Option Bytes) (v : Int) (i : Ident)
     (h : iatChoice js a = some v) (hi : identOfJS { js with iat := v } = some i) :
     finish cfg pre js a =
-      ⟨pre ++ writeFile cfg.fixed bfN (bridgeLine cfg i)
+      ⟨pre ++ writeFile cfg.fixed bfN (bridgeText cfg i)
            ++ writeFile cfg.fixed sfN (encState (recOfJS { js with iat := v })), .ok i⟩ := by
   unfold finish; rw [h]; simp only [hi]
 
